@@ -602,6 +602,27 @@ def run(ctx, res):
                 res.bad("ERR-RESTORE", "eval::eval # restore-args", "restore_stack_frame on the Err edge is not given the popped pair and the returned values (values=%s pair=%s)" % (from_err, pair_ok), f.loc(t["span"]))
         else:
             res.bad("ERR-RESTORE", "eval::eval # no-restore", "the Err edge of eval_expr can return without restore_stack_frame", f.loc())
+    # ---- EXIT-RESTORE (MIR): the frame-exit part of eval pops the return value before checking the return hint;
+    # every error return between that pop and the pop of the frame must push the value back.
+    pv = [bi for bi, t in f.calls() if M.callee_name(t) == "env::Env::pop_value"]
+    frame_pops = [bi for bi, t in f.calls() if (M.callee_name(t) or "").endswith("Vec::<T, A>::pop")
+                  and "StackFrame" in ((t.get("argtys") or [""])[0])]
+    pushes = [bi for bi, t in f.calls() if M.callee_name(t) == "env::Env::push_value"]
+    n_exit = 0
+    for pb in pv:
+        # the pop that is followed (on some path) by a pop of the frame vector: the function-return pop
+        fwd = D.reach_from(f, [f.blocks[pb]["term"]["target"]], avoid_blocks=[L.pop_bb])
+        if not any(q in fwd for q in frame_pops):
+            continue
+        n_exit += 1
+        leak = D.reach_from(f, [f.blocks[pb]["term"]["target"]], avoid_blocks=frame_pops + pushes + [L.pop_bb]) & set(L.return_bbs)
+        if leak:
+            res.bad("EXIT-RESTORE", "eval::eval # return-value-not-restored",
+                    "eval::eval pops the callee's return value and can then return an error without pushing it back "
+                    "(a failed return type hint): resuming pops an empty value stack", f.loc(f.blocks[pb]["term"].get("fn_span")))
+        else:
+            res.ok("EXIT-RESTORE", "eval::eval: every error return after popping the return value pushes it back first")
+    res.floor("EXIT-RESTORE", "return-value pops at frame exit", n_exit, 1)
     res.extra.update({"sites": len(all_sites), "wrong_sites": n_bad, "functions_analysed": len(targets)})
     res.explanation = (
         "RESTORE-SEQ walks every function returning (RestoreValues, EvalError) and tracks two symbolic sequences: the values "
